@@ -41,6 +41,7 @@ type VerifConnState struct {
 	LocalPort, RemotePort uint16
 	Inbound               bool
 	Status                uint32
+	DataIn, DataOut       uint64
 }
 
 // VerifConnStates returns a snapshot of the connection states.
@@ -49,7 +50,7 @@ func (r *Router) VerifConnStates() []VerifConnState {
 	defer r.connStatesLock.RUnlock()
 	out := make([]VerifConnState, 0, len(r.connStates))
 	for k, e := range r.connStates {
-		out = append(out, VerifConnState{k.localIP, k.remoteIP, k.protocol, k.localPort, k.remotePort, e.inbound, e.status.Load()})
+		out = append(out, VerifConnState{k.localIP, k.remoteIP, k.protocol, k.localPort, k.remotePort, e.inbound, e.status.Load(), e.dataIn.Load(), e.dataOut.Load()})
 	}
 	return out
 }
